@@ -629,6 +629,20 @@ class Sym:
     def __str__(self):
         return self.__format__("")
 
+    def __round__(self, n=None):
+        """round(x, n): an UNKNOWN value within half a unit of the last kept decimal place of x (sound over-approximation:
+        which way a double rounds in decimal is behind the C boundary); round(x) without n is not modelled"""
+        if self.is_const():
+            return Sym.const(round(float(self.v), n)) if n is not None else round(float(self.v))
+        if n is None:
+            raise Unsupported("round() of a symbolic value to an integer")
+        r = z3.Real(CTX.fresh("rounded"))
+        half = z3.Q(5, 10 ** (n + 1)) if n >= 0 else z3.RealVal(5 * 10 ** (-n - 1))
+        CTX.cons.append(z3.And(r - self.z() <= half, self.z() - r <= half))
+        if CTX.shadow is not None:
+            CTX.shadow[str(r)] = float("nan")
+        return Sym(r)
+
     def __floor__(self):
         """math.floor / np.floor of a real: the integer part as a real-valued scalar"""
         if self.is_const():
